@@ -356,14 +356,15 @@ def run(ctx, lean):
     _P, _B = _enums()
     if lean is None:
         for n in ('corr:class-table', 'corr:select_candidates', 'corr:init_candidates', 'corr:select_candidates-random-hierarchies',
-                  'corr:select_univariate', 'corr:gaussian_multivariate'):
+                  'corr:select_univariate', 'corr:gaussian_multivariate', 'corr:gaussian_multivariate-fit-history'):
             ctx.ob(n, False, 'tie', 'driver unavailable')
         return
     outs = Outcomes()
     for name, fn in (('class-table', lambda: tie_table(ctx, lean)), ('init_candidates', lambda: tie_init(ctx, lean)),
                      ('random-hierarchies', lambda: tie_hierarchies(ctx, lean)),
                      ('select_univariate', lambda: tie_select(ctx, lean, outs)),
-                     ('gaussian_multivariate', lambda: tie_gm(ctx, lean, outs))):
+                     ('gaussian_multivariate', lambda: tie_gm(ctx, lean, outs)),
+                     ('gaussian_multivariate-fit-history', lambda: tie_gm_history(ctx, lean, outs))):
         try:
             fn()
         except Exception:     # a crash of one correspondence must not hide the others nor skip the search
@@ -687,23 +688,20 @@ def make_config(rng, refs, columns):
     return kind, {k: e.obj for k, e in items}, toks, R
 
 
-def gm_case(ctx, lean, outs, rng, refs, did, df):
-    """-> (key, real, model, detail-or-None)"""
-    from copulas.multivariate import GaussianMultivariate
-    from copulas.univariate import GaussianUnivariate
-    columns = list(df.columns)
-    kind, cfg, toks, R = make_config(rng, refs, columns)
-    if toks is None:       # GaussianMultivariate() — the constructor default must be the generated default too
-        toks = ['single', 'Univariate']
-    gm = GaussianMultivariate() if cfg is None and kind == 'default' else GaussianMultivariate(distribution=cfg)
+def real_gm_fit(gm, df):
     try:
         gm.fit(df)
-        real = 'ok ' + ' '.join(f'{col_tok(c)}={u.to_dict()["type"]}' for c, u in zip(gm.columns, gm.univariates))
+        return 'ok ' + ' '.join(f'{col_tok(c)}={u.to_dict()["type"]}' for c, u in zip(gm.columns, gm.univariates))
     except Exception as e:  # noqa
-        real = 'err ' + vc.exc_kind(e)
-    req = []
-    selectors = {}
-    branch = []
+        return 'err ' + vc.exc_kind(e)
+
+
+def frame_oracles(lean, outs, toks, R, did, df):
+    """per column of the frame: the reference the MODEL picks for it and the real outcome of that reference on the
+    column -> (wire tokens `cols n …`, selector info per column, branch labels)"""
+    from copulas.univariate import GaussianUnivariate
+    columns = list(df.columns)
+    req, selectors, branch = [], {}, []
     for c in columns:
         series = df[c]
         r = ask(lean, 'col ' + ' '.join(toks) + ' ' + col_tok(c))
@@ -720,33 +718,181 @@ def gm_case(ctx, lean, outs, rng, refs, did, df):
             gauss = 'err:' + vc.exc_kind(e)
         req += [col_tok(c), ref_tok, inst, fit, gauss]
         branch.append('noinst' if inst != 'ok' else 'fallback' if fit == 'err' else 'selector' if selinfo else 'configured')
-        if ref_tok not in R.objs and kind.startswith('dict'):
+        if ref_tok not in R.objs and toks[0] == 'dict':
             branch.append('dict-default')
-    model = ask(lean, 'gm ' + ' '.join(toks) + f' cols {len(columns)} ' + ' '.join(req))
+    return [f'cols {len(columns)}'] + req, selectors, branch
+
+
+def same_fit(lean, real, model, selectors):
+    """real and model fit results agree (a different minimiser in a selector column is not a disagreement)."""
+    if real == model:
+        return True
+    if not (real.startswith('ok ') and model.startswith('ok ')):
+        return False
+    rl, ml = real.split()[1:], model.split()[1:]
+    if len(rl) != len(ml):
+        return False
+    for a, b in zip(rl, ml):
+        if a == b:
+            continue
+        ca, ta = a.split('=')
+        cands, outcomes = selectors.get(ca, (None, None))
+        if cands is None or b.split('=')[0] != ca:
+            return False
+        t = ' '.join(tok(o) for o in outcomes)
+        if not any(ask(lean, f'acc {i} {t}') == 'yes' for i, e in enumerate(cands) if e.type == ta):
+            return False
+    return True
+
+
+def config_tokens(dist, R):
+    """the object's `distribution` attribute as wire tokens (values identified by identity with what was sent)."""
+    def ref(v):
+        for t, e in R.objs.items():
+            if e.obj is v:
+                return t
+        return '?' + (v if isinstance(v, str) else fqn(v))
+    if isinstance(dist, dict):
+        out = ['dict', str(len(dist))]
+        for k, v in dist.items():
+            out += [col_tok(k), ref(v)]
+        return out
+    return ['single', ref(dist)]
+
+
+def gm_case(ctx, lean, outs, rng, refs, did, df):
+    """-> (key, real, model, detail-or-None)"""
+    from copulas.multivariate import GaussianMultivariate
+    columns = list(df.columns)
+    kind, cfg, toks, R = make_config(rng, refs, columns)
+    default = toks is None
+    if default:       # GaussianMultivariate() — the constructor default must be the generated default too
+        toks = ['single', 'Univariate']
+    gm = GaussianMultivariate() if default else GaussianMultivariate(distribution=cfg)
+    real = real_gm_fit(gm, df)
+    req, selectors, branch = frame_oracles(lean, outs, toks, R, did, df)
+    model = ask(lean, 'gm ' + ' '.join(toks) + ' ' + ' '.join(req))
     key = (did, kind, tuple(toks))
     detail = None
-    if real != model:
-        ok = False
-        # a different minimiser in a selector column is not a disagreement
-        if real.startswith('ok ') and model.startswith('ok '):
-            rl, ml = real.split()[1:], model.split()[1:]
-            ok = len(rl) == len(ml)
-            for a, b in zip(rl, ml):
-                if a == b:
-                    continue
-                ca, ta = a.split('=')
-                cands, outcomes = selectors.get(ca, (None, None))
-                if cands is None or b.split('=')[0] != ca:
-                    ok = False
-                    break
-                t = ' '.join(tok(o) for o in outcomes)
-                if not any(ask(lean, f'acc {i} {t}') == 'yes' for i, e in enumerate(cands) if e.type == ta):
-                    ok = False
-                    break
-        if not ok:
-            detail = {'dataset': did, 'config': kind, 'wire': ' '.join(toks), 'columns': [col_tok(c) for c in columns],
-                      'oracles': ' '.join(req), 'real': real, 'model': model}
+    if not same_fit(lean, real, model, selectors):
+        detail = {'dataset': did, 'config': kind, 'wire': ' '.join(toks), 'columns': [col_tok(c) for c in columns],
+                  'oracles': ' '.join(req), 'real': real, 'model': model}
+    elif not default and config_tokens(gm.distribution, R) != toks:
+        detail = {'dataset': did, 'config': kind, 'why': 'fit changed the distribution configuration of the object',
+                  'configured': ' '.join(toks), 'after fit': ' '.join(config_tokens(gm.distribution, R))}
     return key, kind, branch, real, model, detail
+
+
+# ------------------------------------------------------------------------------- fit histories
+class StubPositive(_Stub):
+    """can only be fitted to strictly positive data."""
+
+    def fit(self, X):
+        if np.min(np.asarray(X, dtype=float)) <= 0:
+            raise ValueError('stub: needs strictly positive data')
+        super().fit(X)
+
+
+class StubSmallOnly(_Stub):
+    """can only be fitted to at most 60 rows."""
+
+    def fit(self, X):
+        if len(X) > 60:
+            raise RuntimeError('stub: too many rows')
+        super().fit(X)
+
+
+def history_refs():
+    from copulas.univariate import GammaUnivariate, GaussianKDE, GaussianUnivariate, UniformUnivariate, Univariate
+    refs = []
+    for c in (StubPositive, StubSmallOnly, StubPositive, StubSmallOnly, GaussianUnivariate, UniformUnivariate, GammaUnivariate,
+              GaussianKDE, StubRaiseFit, StubShiftA):
+        refs.extend(entry_forms(c))
+    refs += [Entry('cls:Univariate', Univariate),
+             Entry('inst:Univariate([Positive,Uniform])', Univariate(candidates=[StubPositive, UniformUnivariate])),
+             Entry('inst:Univariate([SmallOnly])', Univariate(candidates=[StubSmallOnly]))]
+    return refs
+
+
+def history_frames(ctx, label, k, rng):
+    """2-4 frames with the same columns; 'a' is signed or positive, sizes 40 or 90 (the data-dependent stubs fail on
+    signed / large frames)."""
+    nr = ctx.nprng(label, k)
+    names = rng.choice([['a', 'b', 'c'], [0, 1, 2], ['a', 'b']])
+    frames = []
+    for j in range(rng.randint(2, 4)):
+        positive, n = rng.random() < 0.5, rng.choice([40, 90])
+        cols = []
+        for i, _ in enumerate(names):
+            x = nr.gamma(2.0, 1.5, n) if positive else nr.normal(0.0, 2.0, n)
+            cols.append(x if i != 1 else nr.beta(2.0, 3.0, n) - (0.0 if positive else 0.5))
+        frames.append((f'{label}{k}.{j}:{"pos" if positive else "signed"}{n}', pd.DataFrame(dict(zip(names, cols)))))
+    # make sure the interesting order (cannot fit, then can fit) occurs often
+    if rng.random() < 0.6:
+        frames.sort(key=lambda f: ('pos' in f[0], '40' in f[0]))
+    return frames
+
+
+def history_config(rng, refs, columns):
+    R = Refs()
+    if rng.random() < 0.2:
+        e = rng.choice(refs)
+        return 'single', e.obj, ['single', R.tok(e)], R
+    keys = [c for c in columns if rng.random() < 0.75] or [columns[0]]
+    items = [(k, rng.choice(refs)) for k in keys]
+    toks = ['dict', str(len(items))]
+    for k, e in items:
+        toks += [col_tok(k), R.tok(e)]
+    return 'dict', {k: e.obj for k, e in items}, toks, R
+
+
+def history_steps(rng, nframes):
+    """which object ('A', or 'B' = a second model constructed with the SAME configuration object) fits which frame."""
+    steps = [('A', j) for j in range(nframes)]
+    if rng.random() < 0.6:
+        steps = [('A', 0)] + [(rng.choice('AB'), j) for j in range(1, nframes)]
+        if not any(m == 'B' for m, _ in steps):
+            steps.append(('B', nframes - 1))
+    return steps
+
+
+def tie_gm_history(ctx, lean, outs):
+    from copulas.multivariate import GaussianMultivariate
+    rng = ctx.rng('gmhist')
+    refs = history_refs()
+    bad = None
+    for k in range(8 * ctx.scale):
+        frames = history_frames(ctx, 'F', k, rng)
+        columns = list(frames[0][1].columns)
+        kind, cfg, toks, R = history_config(rng, refs, columns)
+        steps = history_steps(rng, len(frames))
+        objs = {m: GaussianMultivariate(distribution=cfg) for m in sorted({m for m, _ in steps})}
+        real = {m: [] for m in objs}
+        wire = {m: [] for m in objs}
+        sels = {m: [] for m in objs}
+        seen_fallback = False
+        for m, j in steps:
+            did, df = frames[j]
+            real[m].append(real_gm_fit(objs[m], df))
+            req, selectors, branch = frame_oracles(lean, outs, toks, R, did, df)
+            wire[m].append(req)
+            sels[m].append(selectors)
+            if seen_fallback and 'configured' in branch:
+                ctx.count('gmhist:configured-fit-after-an-earlier-fallback')
+            seen_fallback = seen_fallback or 'fallback' in branch
+        ctx.case((tuple(toks), tuple(steps), frames[0][0]), nontrivial=len(steps) > 1)
+        ctx.count('gmhist:config=' + kind)
+        ctx.count('gmhist:objects=%d' % len(objs))
+        for m in objs:
+            reply = ask(lean, 'gmhist ' + ' '.join(toks) + f' fits {len(wire[m])} ' + ' '.join(' '.join(r) for r in wire[m]))
+            parts = [x.strip() for x in reply.split('|')]
+            fits, final = parts[:-1], parts[-1]
+            ok = len(fits) == len(real[m]) and all(same_fit(lean, r, f, s) for r, f, s in zip(real[m], fits, sels[m]))
+            after = 'cfg ' + ' '.join(config_tokens(objs[m].distribution, R))
+            if (not ok or after != final) and bad is None:
+                bad = {'config': ' '.join(toks), 'steps': [(mm, frames[j][0]) for mm, j in steps], 'object': m,
+                       'real fits': real[m], 'model fits': fits, 'real distribution after': after, 'model': final}
+    ctx.ob('corr:gaussian_multivariate-fit-history', bad is None, 'tie', bad or 'ok')
 
 
 def make_frame(ctx, label, k):
